@@ -402,6 +402,86 @@ def call_sibling(ctx, r):
     r.count("checker call sites of calculate_func_call_order", calls, 3, TC)
 
 
+def _scrutinee_base(m):
+    """`match &*expr.kind {..}` -> 'expr'."""
+    e = m["e"]
+    while e["k"] in ("Ref", "Unary", "Paren"):
+        e = e["e"]
+    if e["k"] == "Field" and e["f"] == "kind":
+        b = e["e"]
+        while b["k"] in ("Ref", "Unary", "Paren"):
+            b = b["e"]
+        if b["k"] == "Path":
+            return b["p"]
+    return None
+
+
+def _key_base(k):
+    """`&expr.id`, `expr.id`, `&expr.node().id()`, `expr.id()` -> 'expr'."""
+    while k["k"] in ("Ref", "Unary", "Paren"):
+        k = k["e"]
+    if k["k"] == "Field" and k["f"] == "id":
+        k = k["e"]
+    elif k["k"] == "MethodCall" and k["m"] == "id" and not k["args"]:
+        k = k["recv"]
+    else:
+        return None
+    while k["k"] == "MethodCall" and k["m"] in ("node", "clone") and not k["args"]:
+        k = k["recv"]
+    return k["p"] if k["k"] == "Path" else None
+
+
+@rule("CALL-KEY", ["C18"], "the reorder table is written and read under the id of the call expression itself: every lookup in a call arm uses the node whose kind was matched as the call")
+def call_key(ctx, r):
+    n_lookup = 0
+    n_insert = 0
+    for file in (TB, TC):
+        items = ctx.file_items(file)
+        if items is None:
+            r.missing(file)
+            continue
+        short = file.split("/")[-1]
+        for f, _ in q.iter_items(items):
+            if f["k"] != "Fn" or f.get("body") is None:
+                continue
+            params = [b for p in f["params"] if not p.get("self") for b in q.pat_bindings(p["pat"])]
+            # lookups / writers and the innermost principal match arm for ExprKind::FuncCall around them
+            arms = []
+            for m in q.walk(f["body"]):
+                if m["k"] == "Match":
+                    base = _scrutinee_base(m)
+                    for a in m["arms"]:
+                        if "FuncCall" in [q.last_seg(h) for h in q.pat_heads(a["pat"])] and base:
+                            arms.append((base, a))
+            for x in q.walk(f["body"]):
+                is_lookup = x["k"] == "MethodCall" and x["m"] in ("get", "contains_key", "remove", "get_mut") and q.show(x["recv"]).endswith("function_call_arg_order") and x["args"]
+                is_index = x["k"] == "Index" and q.show(x["e"]).endswith("function_call_arg_order")
+                is_writer = x["k"] == "Call" and x["f"]["k"] == "Path" and q.last_seg(x["f"]["p"]) == "calculate_func_call_order" and len(x["args"]) >= 4
+                if not (is_lookup or is_index or is_writer):
+                    continue
+                keyexpr = x["args"][0] if is_lookup else (x["i"] if is_index else x["args"][3])
+                kb = _key_base(keyexpr) if not is_writer else _key_base({"k": "MethodCall", "m": "id", "args": [], "recv": keyexpr})
+                inner = [(b, a) for b, a in arms if any(y is x for y in q.walk(a["body"]))]
+                where = f"{short}:{f['name']}"
+                if is_writer:
+                    n_insert += 1
+                else:
+                    n_lookup += 1
+                what = "calculate_func_call_order" if is_writer else "function_call_arg_order"
+                if inner:
+                    base = inner[-1][0]
+                    r.ob(kb == base, f"{where}:{what}:key-is-not-the-call-expression", file, x["l"],
+                         f"{f['name']}: the reorder table is keyed by the id of the call expression (`{base}`, whose kind was matched as FuncCall), but this site uses `{q.show(keyexpr)}`: the lookup misses (or the entry is filed under another node) and arguments silently fall back to written order",
+                         sample=f"{f['name']}: {what} keyed by `{q.show(keyexpr)}`")
+                else:
+                    # outside a call arm: the key must be a parameter handed down by the caller (the call node), used for both writing and reading
+                    r.ob(kb in params, f"{where}:{what}:key-is-not-the-call-expression", file, x["l"],
+                         f"{f['name']}: reorder-table key `{q.show(keyexpr)}` is neither the matched call expression nor a node handed down by the caller",
+                         sample=f"{f['name']}: {what} keyed by parameter `{kb}`")
+    r.count("reorder-table lookups", n_lookup, 8, TB)
+    r.count("reorder-table writers", n_insert, 3, TC)
+
+
 @rule("ARG-MISUSE", ["C18", "C04"], "every class of argument misuse has a diagnostic exit, and the reorder step never panics on a user-supplied name")
 def arg_misuse(ctx, r):
     items = ctx.file_items(RES)
